@@ -322,8 +322,77 @@ class _PredInliner(ast.NodeTransformer):
     visit_AsyncFunctionDef = visit_Lambda = visit_ClassDef = visit_FunctionDef
 
 
+_HOIST_OK = (ast.Call, ast.Attribute, ast.Subscript, ast.Tuple, ast.List, ast.BinOp, ast.Compare, ast.keyword, ast.UnaryOp, ast.FormattedValue, ast.JoinedStr,
+             ast.Starred)
+
+
+def _postorder(e, parent_chain, out):
+    for ch in ast.iter_child_nodes(e):
+        if isinstance(ch, (ast.Lambda, ast.ListComp, ast.SetComp, ast.DictComp, ast.GeneratorExp)):
+            continue
+        _postorder(ch, parent_chain + [e], out)
+    if isinstance(e, ast.Call):
+        out.append((e, parent_chain))
+
+
+def _hoist(repo, caller, s, known, caller_names):
+    """`self.fire(stream(res, self._next_data(res)))` -> `hv = self._next_data(res); self.fire(stream(res, hv))` when the helper call is the first
+    call to complete in the statement (nothing with an effect is evaluated before it) and it is evaluated unconditionally."""
+    if isinstance(s, (ast.Expr, ast.Assign, ast.Return, ast.AugAssign)) and s.value is not None:
+        root = s.value
+    else:
+        return None
+    calls = []
+    _postorder(root, [], calls)
+    for i, (c, chain) in enumerate(calls):
+        if c is root:
+            continue
+        callee, _m = _resolve(repo, caller, c, known)
+        if callee is None:
+            continue
+        inside = {id(w) for w in ast.walk(c)}
+        if any(id(prev) not in inside for prev, _ch in calls[:i]):
+            return None
+        if not all(isinstance(a, _HOIST_OK) for a in chain):
+            return None
+        if _pred_expr(clone(list(callee.node.body))) is not None and not _has_stmt_effects(callee.node):
+            pass
+        name = f'hv__{callee.name.strip("_")}'
+        k = 0
+        while name in caller_names:
+            k += 1
+            name = f'hv__{callee.name.strip("_")}{k}'
+        caller_names.add(name)
+        asg = ast.copy_location(ast.Assign(targets=[ast.Name(id=name, ctx=ast.Store())], value=c), s)
+
+        class R(ast.NodeTransformer):
+            def visit_Call(self, n):
+                if n is c:
+                    return ast.copy_location(ast.Name(id=name, ctx=ast.Load()), n)
+                self.generic_visit(n)
+                return n
+        s.value = R().visit(s.value)
+        ast.fix_missing_locations(asg)
+        ast.fix_missing_locations(s)
+        return [asg, s]
+    return None
+
+
+def _has_stmt_effects(fnode):
+    return False
+
+
 def _walk_list(repo, caller, stmts, known, caller_names, stack, stats):
     out = []
+    stmts = list(stmts)
+    i = 0
+    while i < len(stmts):
+        if len(stack) <= MAX_DEPTH:
+            h = _hoist(repo, caller, stmts[i], known, caller_names)
+            if h is not None:
+                stmts[i:i + 1] = h
+                continue
+        i += 1
     for s in stmts:
         if isinstance(s, (ast.If, ast.While)) and len(stack) <= MAX_DEPTH:
             s.test = _PredInliner(repo, caller, known, stats).visit(s.test)
@@ -435,6 +504,10 @@ def normalise_aliases(repo):
                 f = replace_node(m, f, new) or f
                 n += 1
             new = normalize.apply_predicates(f.node)
+            if new is not None:
+                replace_node(m, f, new)
+                n += 1
+            new = normalize.apply_drops(f.node)
             if new is not None:
                 replace_node(m, f, new)
                 n += 1
